@@ -96,8 +96,14 @@ def run(tier):
     if not rc.ok:
         chk.violation("C09|design|cycles", "Cycles.tla violates an invariant", {"tlc": rc.violation})
     members = []
-    for cfg in (["EvalOp_g2.cfg", "EvalOp_inst.cfg"] if tier == "quick" else ["EvalOp_g2.cfg", "EvalOp_g3.cfg", "EvalOp_inst.cfg"]):
-        r = run_tlc("EvalOpMC", cfg, workers=8, timeout=3000, java_opts=["-Xss512m"], xmx="12g")
+    cfgs = ["EvalOp_g2.cfg", "EvalOp_inst.cfg"]
+    if tier != "quick":
+        # RecGraphs(3) in seven slices (kind of the first declaration) side by side: TLC enumerates initial states on one thread
+        cfgs += ["EvalOp_g3_%s.cfg" % k for k in ("obj", "arr", "alias", "cnt", "sum", "fn", "rel")]
+    import concurrent.futures as cf
+    with cf.ThreadPoolExecutor(max_workers=8) as ex:
+        results = list(ex.map(lambda cfg: run_tlc("EvalOpMC", cfg, workers=2, timeout=5400, java_opts=["-Xss512m"], xmx="6g"), cfgs))
+    for cfg, r in zip(cfgs, results):
         chk.add_tlc(r)
         if not r.ok:
             chk.violation("C09|design|evalop", "EvalOpMC.tla: RunOK fails (%s)" % cfg, {"tlc": (r.violation or "")[:2000]})
